@@ -501,6 +501,10 @@ func genC14(g *Gen) {
 		// weights of very different magnitude (costs in seconds or joules; in units of 10^300): the
 		// selection must still take the minimum
 		{"2^255-19-2", 2.5e-12, 2e-12}, {"2^127-1", 1e-10, 1e-10}, {"2^89-1", 1e300, 7e299}, {"2^64-59", 3e-300, 1e-300},
+		// literals in [2^63, 2^64): a limb-sized constant with its top bit set
+		{"0xffffffff00000001 - 2", 1, 1}, {"2^128 + 0xfffffffffffffffe", 1, 1}, {"18446744073709551557", 1, 2},
+		// additions priced far below doublings and the other way round (the selection is a plain minimum)
+		{"2^127-1", 1, 2}, {"2^127-1", 0.25, 1}, {"2^64-2^32+1-2", 1, 4}, {"2^64-2^32+1-2", 5, 1},
 		// a dense 512-bit target (brainpoolP512r1 p - 2): the printed script is over 2 KB
 		{"0xaadd9db8dbe9c48b3fd4e6ae33c9fc07cb308db3b3c9d20ed6639cca703308717d4d9b009bc66842aecda12ae6a380e62881ff2f2d82c68528aa6056583a48f3 - 2", 1, 1}}
 	for _, x := range extra {
